@@ -35,6 +35,7 @@ def G_of(case):
     return {int(k): [(int(v), int(c)) for v, c in a] for k, a in case["G"]}
 
 class C08(Prop):
+    translators = ['flow']   # ford_fulkerson / dfs_path regenerated from flow.py on every run
     pid = "C08"
     title = "Ford-Fulkerson returns a maximum flow and a matching minimum cut"
     sources = ["socialchoicekit/flow.py"]
